@@ -266,6 +266,10 @@ def run_probes(m, spec):
 
 
 def wrapped_optimize(self, callback=None):
+    if CUR.get("nodump"):      # batching worlds: the batch variables are outside the modelled name space
+        self.Params.Threads = 1
+        self.Params.Seed = 1
+        return ORIG_OPT(self, callback)
     CUR["dump"], CUR["sizes"] = dump_model(self)
     if CUR.get("probe_spec") is not None:
         CUR["probes"] = run_probes(self, CUR["probe_spec"])
@@ -381,7 +385,7 @@ def run_case(w):
     cfg = w["cfg"]
     workload, wps, workers, tasks = build_world(w)
     CUR["exact"] = bool(cfg.get("exact"))
-    sched = ILPScheduler(preemptive=False, runtime=EventTime.zero(), lookahead=et(cfg.get("lookahead", 0)),
+    sched = ILPScheduler(preemptive=False, runtime=et(cfg.get("sched_runtime", 0)), lookahead=et(cfg.get("lookahead", 0)),
                          enforce_deadlines=cfg["enforce"], retract_schedules=cfg["retract"],
                          release_taskgraphs=cfg["release_tg"], goal=cfg["goal"], batching=False)
     sched._logger = LG
@@ -462,10 +466,60 @@ def run_case(w):
     return res
 
 
+def run_batch_case(w):
+    """Batching mode (not modelled): a batch of SCHEDULED members sharing one WorkProfile and one BatchStrategy, planned
+    for `start`, and a newly released task; the planner is invoked with batching on.  Only the returned Placements are
+    reported: [task, placed, time, runtime of the returned strategy]."""
+    import random
+    from workload import BatchStrategy
+    random.seed(w["seed"])      # the ids (and with them the iteration order of the planner's sets) are reproducible
+    CUR.clear()
+    CUR["nodump"] = True
+
+    def prof(name, rt, bsize, q):
+        return WorkProfile(name=name, execution_strategies=ExecutionStrategies(strategies=[ExecutionStrategy(
+            resources=Resources(resource_vector={Resource(name="r0", _id="any"): q}, _logger=LG), batch_size=bsize, runtime=et(rt))]))
+
+    def task(tid, pr, dl, rel):
+        return Task(name="t%d" % tid, task_graph="g%d" % tid, job=Job(name="t%d" % tid, profile=pr), profile=pr, deadline=et(dl),
+                    timestamp=0, release_time=et(rel), _logger=LG)
+    pm = prof("members", w["rt"], len(w["members"]), w["demand"])
+    tasks = {}
+    for m in w["members"]:
+        tasks[m["id"]] = task(m["id"], pm, m["deadline"], 0)
+    for n in w["new"]:
+        tasks[n["id"]] = task(n["id"], prof("p%d" % n["id"], n["rt"], 1, n["demand"]), n["deadline"], n["release"])
+    workload = Workload.from_task_graphs({"g%d" % i: TaskGraph(name="g%d" % i, tasks={t: []}) for i, t in tasks.items()})
+    wk = Worker(name="w1", resources=Resources({Resource(name="r0"): w["cap"]}, _logger=LG), _logger=LG)
+    pool = WorkerPool(name="p0", workers=[wk], _logger=LG)
+    wps = WorkerPools([pool])
+    for i, t in tasks.items():
+        t.release(et(0 if i in [m["id"] for m in w["members"]] else [n for n in w["new"] if n["id"] == i][0]["release"]))
+    bs = BatchStrategy(execution_strategy=pm.execution_strategies[0])
+    for m in w["members"]:
+        tasks[m["id"]].schedule(et(0), Placement.create_task_placement(tasks[m["id"]], et(w["start"]), pool.id, wk.id, bs))
+    sched = ILPScheduler(preemptive=False, runtime=EventTime.zero(), enforce_deadlines=True, retract_schedules=False,
+                         release_taskgraphs=False, goal="max_goodput", batching=True)
+    sched._logger = LG
+    res = {}
+    try:
+        placements = sched.schedule(et(w["now"]), workload, wps)
+    except Exception as e:      # noqa: BLE001
+        import traceback
+        res["error"] = "%s: %s" % (type(e).__name__, str(e)[:300])
+        res["traceback"] = traceback.format_exc()[-1500:]
+        return res
+    res["plan"] = [[int(p.task.name[1:]), int(bool(p.is_placed())),
+                    p.placement_time.to(US).time if p.is_placed() else -1,
+                    p.execution_strategy.runtime.to(US).time if p.is_placed() else -1] for p in placements]
+    res["status"] = CUR.get("status")
+    return res
+
+
 out = []
 for w in payload["cases"]:
     try:
-        out.append(run_case(w))
+        out.append(run_batch_case(w) if w.get("kind") == "batch" else run_case(w))
     except BaseException as e:      # noqa: BLE001  a failure on one world is recorded for that world only
         import traceback
         out.append({"adapter_error": "%s: %s" % (type(e).__name__, str(e)[:400]), "traceback": traceback.format_exc()[-1500:]})
